@@ -105,7 +105,12 @@ def main(ck, tier, w):
                             'outs': [{'val': 100 + n, 'spk': x} for n, x in enumerate(looks[h - 1::3])] + [{'val': 5, 'spk': btc.p2pkh(r0.randbytes(20))}], 'lock': h})
             elif h >= 1 and k == -1:
                 txs.append({'ver': 1, 'ins': [{'txid': r0.randbytes(32), 'idx': 1, 'sig': b'\x01\x01', 'seq': 5}],
-                            'outs': [{'val': n, 'spk': x} for n, x in enumerate(texts[h - 1::3])], 'lock': h})
+                            'outs': [{'val': n, 'spk': x} for n, x in enumerate(
+                                # well-known data carriers (witness commitment header, Omni, runestone) BEFORE and between the texts: what
+                                # one output holds never decides whether its siblings are reported
+                                [b'\x6a\x24\xaa\x21\xa9\xed' + r0.randbytes(32)] + texts[h - 1::3][:4] + [b'\x6a\x26\xaa\x21\xa9\xed' + r0.randbytes(34), b'\x6a\x5d\x02\x01\x02',
+                                                                                                  b'\x6a\x14omni' + r0.randbytes(16)] + texts[h - 1::3][4:])], 'lock': h})
+                txs[0]['outs'] = [{'val': 0, 'spk': b'\x6a\x24\xaa\x21\xa9\xed' + r0.randbytes(32)}] + txs[0]['outs'] + [{'val': 0, 'spk': b'\x6a' + btc.push(b'pool tag %d' % h)}]
             elif h >= 1:
                 s = pick[(h * 3) % len(pick)]
                 t = pick[(h * 3 + 1) % len(pick)]
